@@ -8,6 +8,7 @@ import (
 	"fmt"
 	"os"
 	"path/filepath"
+	"sort"
 	"strings"
 )
 
@@ -21,6 +22,7 @@ type SmtLemma struct {
 	Trigger string // function symbol that makes the lemma relevant
 	Axiom   bool   // definitional axiom of an uninterpreted prelude function: not proved
 	Also    []string // variables that move together with the induction variable
+	Monotone bool    // hyp(n) implies hyp(n-1): checked separately, lets the step use concl(n-1) directly
 }
 
 func loadSmtLemmas(verifDir string) ([]*SmtLemma, error) {
@@ -61,6 +63,8 @@ func loadSmtLemmas(verifDir string) ([]*SmtLemma, error) {
 				lm.Trigger = k.kids[1].atom
 			case "axiom":
 				lm.Axiom = true
+			case "monotone":
+				lm.Monotone = true
 			}
 		}
 		if lm.Concl == nil {
@@ -96,7 +100,13 @@ func (lm *SmtLemma) queries(p *Program, prelude string, earlier []*SmtLemma) map
 	}
 	finish := func(asserts []string) string {
 		sub := &Program{lemmas: earlier}
-		return decl.String() + strings.Join(asserts, "\n") + "\n" + sub.lemmaInstances(asserts, "") + "(check-sat)\n"
+		// the last assert is the negated goal: skolemise it and instantiate the hypotheses at its terms
+		body := asserts[:len(asserts)-1]
+		last := asserts[len(asserts)-1]
+		goal := strings.TrimSuffix(strings.TrimPrefix(last, "(assert (not "), "))")
+		decls, extra, neg := preInstantiate(body, "true", goal, 9, nil)
+		return decl.String() + strings.Join(body, "\n") + "\n" + strings.Join(decls, "\n") + "\n" + strings.Join(extra, "\n") + "\n" +
+			sub.lemmaInstancesOnce(asserts, "", nil) + neg + "\n(check-sat)\n"
 	}
 	out := map[string]string{}
 	if lm.Induct == "" {
@@ -113,6 +123,12 @@ func (lm *SmtLemma) queries(p *Program, prelude string, earlier []*SmtLemma) map
 		ihHyp = substAtom(ihHyp, v, pv)
 		ihConcl = substAtom(ihConcl, v, pv)
 	}
+	if lm.Monotone {
+		out["mono"] = finish([]string{fmt.Sprintf("(assert (> %s 0))", n), "(assert " + lm.Hyp.String() + ")", "(assert (not " + ihHyp.String() + "))"})
+		out["step"] = finish([]string{fmt.Sprintf("(assert (> %s 0))", n), "(assert " + lm.Hyp.String() + ")",
+			"(assert " + ihConcl.String() + ")", "(assert (not " + lm.Concl.String() + "))"})
+		return out
+	}
 	out["step"] = finish([]string{fmt.Sprintf("(assert (> %s 0))", n), "(assert " + lm.Hyp.String() + ")",
 		"(assert (=> " + ihHyp.String() + " " + ihConcl.String() + "))", "(assert (not " + lm.Concl.String() + "))"})
 	return out
@@ -125,7 +141,7 @@ func runLemmas(prog *Program, cs *ContractSet, pd *PropertyDef, tier string) []*
 			continue
 		}
 		qs := lm.queries(prog, "(declare-sort Str 0)\n"+prog.prelude, prog.lemmas[:i])
-		for _, part := range []string{"direct", "base", "step"} {
+		for _, part := range []string{"direct", "base", "mono", "step"} {
 			q, ok := qs[part]
 			if !ok {
 				continue
@@ -169,19 +185,59 @@ func collectApps(n *sx_, fn string, bound map[string]bool, out map[string]*sx_) 
 // occurring in the query (all tuples matching its pattern). Variables bound twice to different
 // terms yield an equality premise. The instances contain no array-sorted quantifiers.
 func (p *Program) lemmaInstances(lines []string, goal string) string {
+	return p.lemmaInstancesN(lines, goal, 3)
+}
+
+func (p *Program) lemmaInstancesN(lines []string, goal string, rounds int) string {
+	// a few rounds: instances of the defining axioms introduce new ground terms (one unfolding
+	// step each) that later rounds can use
+	all := ""
+	seen := map[string]bool{}
+	cur := append([]string{}, lines...)
+	for round := 0; round < rounds; round++ {
+		out := p.lemmaInstancesOnce(cur, goal, seen)
+		if out == "" {
+			break
+		}
+		all += out
+		for _, l := range strings.Split(out, "\n") {
+			if l != "" {
+				seen[l] = true
+				cur = append(cur, l)
+			}
+		}
+		if len(all) > 400000 {
+			break
+		}
+	}
+	return all
+}
+
+func (p *Program) lemmaInstancesOnce(lines []string, goal string, skip map[string]bool) string {
 	var b strings.Builder
+	later := len(skip) > 0
 	for _, lm := range p.lemmas {
+		// later rounds only unfold the defining axioms further
+		if later && !lm.Axiom {
+			continue
+		}
 		if lm.Trigger == "" || len(lm.Pattern) == 0 {
 			continue
 		}
 		apps := map[string]*sx_{}
+		lastSeen := map[string]int{}
 		probe := "(" + lm.Trigger + " "
-		for _, l := range append(append([]string{}, lines...), goal) {
+		for li, l := range append(append([]string{}, lines...), goal) {
 			if !strings.Contains(l, probe) {
 				continue
 			}
 			if t := parseSexpr(l); t != nil {
-				collectApps(t, lm.Trigger, map[string]bool{}, apps)
+				found := map[string]*sx_{}
+				collectApps(t, lm.Trigger, map[string]bool{}, found)
+				for k, v := range found {
+					apps[k] = v
+					lastSeen[k] = li
+				}
 			}
 		}
 		var keys []string
@@ -189,8 +245,29 @@ func (p *Program) lemmaInstances(lines []string, goal string) string {
 			keys = append(keys, k)
 		}
 		sortStrings(keys)
-		if len(keys) > 8 {
-			keys = keys[:8]
+		if later {
+			// later rounds: only keep unfolding applications whose size argument is a small literal expression
+			var ks []string
+			for _, k := range keys {
+				app := apps[k]
+				sz := app.kids[len(app.kids)-1]
+				if v, ok := litExprValue(sz); ok && v >= 0 && v <= 6 {
+					ks = append(ks, k)
+				} else if sz.head() == "-" && len(sz.kids) == 3 && !sz.kids[1].isList() && sz.kids[2].atom == "1" {
+					// one symbolic unfolding step: prod(a, off, n-1) for an atomic n
+					ks = append(ks, k)
+				}
+			}
+			keys = ks
+		}
+		// prefer the applications closest to the obligation (latest lines, then the goal)
+		sort.SliceStable(keys, func(i, j int) bool { return lastSeen[keys[i]] > lastSeen[keys[j]] })
+		limit := 16
+		if len(lm.Pattern) == 1 {
+			limit = 40
+		}
+		if len(keys) > limit {
+			keys = keys[:limit]
 		}
 		// enumerate tuples
 		np := len(lm.Pattern)
@@ -241,7 +318,7 @@ func (p *Program) lemmaInstances(lines []string, goal string) string {
 						concl = substAtom(concl, name, t)
 					}
 					inst := "(assert (=> " + and(append(eqs, hyp.String())...) + " " + concl.String() + "))"
-					if !seen[inst] {
+					if !seen[inst] && !skip[inst] {
 						seen[inst] = true
 						b.WriteString(inst + "\n")
 					}
@@ -314,4 +391,52 @@ func (p *Program) boundedUnfold(lines []string, goal string, depth int) string {
 		}
 	}
 	return b.String()
+}
+
+// relatedApps: heuristic filter for two-term lemma instances: the applications share an argument
+// (for array arguments of the form (select H r): the same object reference r).
+func relatedApps(a, b *sx_) bool {
+	key := func(n *sx_) string {
+		if n.head() == "select" && len(n.kids) == 3 {
+			return "obj:" + n.kids[2].String()
+		}
+		return n.String()
+	}
+	for i := 1; i < len(a.kids); i++ {
+		for j := 1; j < len(b.kids); j++ {
+			ka, kb := key(a.kids[i]), key(b.kids[j])
+			if ka == kb && ka != "0" && ka != "1" {
+				return true
+			}
+		}
+	}
+	return false
+}
+
+// litExprValue evaluates +/- expressions over integer literals.
+func litExprValue(n *sx_) (int64, bool) {
+	if !n.isList() {
+		return parseSMTIntStrict(n.atom)
+	}
+	if (n.head() == "+" || n.head() == "-") && len(n.kids) >= 2 {
+		var acc int64
+		for i, k := range n.kids[1:] {
+			v, ok := litExprValue(k)
+			if !ok {
+				return 0, false
+			}
+			switch {
+			case i == 0 && n.head() == "-" && len(n.kids) == 2:
+				acc = -v
+			case i == 0:
+				acc = v
+			case n.head() == "+":
+				acc += v
+			default:
+				acc -= v
+			}
+		}
+		return acc, true
+	}
+	return 0, false
 }
